@@ -43,6 +43,8 @@ class Encoder(object):
 
     def _pow2(self, s_term, s_z3):
         lo, hi = bounds(s_term, self.bmemo)
+        if lo is not None and lo < 0:
+            lo = 0          # the interpreter has forked the "negative shift count" path before building the term
         if lo is None or hi is None or lo < 0 or hi > MAX_SHIFT_SPLIT:
             raise EncodingUnsupported("shift amount without small static range: %r..%r" % (lo, hi))
         r = z3.IntVal(1 << hi)
@@ -81,6 +83,18 @@ class Encoder(object):
                         # contiguous run of ones (2^m - 1) << k :  (x mod 2^(m+k)) - (x mod 2^k)
                         return x % z3.IntVal((run + 1) * low) - x % z3.IntVal(low)
         (al, ah), (bl, bh) = bounds(at, self.bmemo), bounds(bt, self.bmemo)
+        if op in ("or", "xor"):
+            # disjoint bit ranges: (t << k) | y  with 0 <= y < 2^k  is an addition
+            for (xt, x, yt, y, yl, yh) in ((at, a, bt, b, bl, bh), (bt, b, at, a, al, ah)):
+                k = None
+                if not isinstance(xt, (int, bool)) and xt[0] == "shl" and isinstance(xt[2], int):
+                    k = xt[2]
+                elif not isinstance(xt, (int, bool)) and xt[0] == "mul":
+                    for c in (xt[1], xt[2]):
+                        if isinstance(c, int) and c > 0 and (c & (c - 1)) == 0:
+                            k = c.bit_length() - 1
+                if k is not None and yl is not None and yh is not None and yl >= 0 and yh < (1 << k):
+                    return x + y
         if op == "and":
             # one non-negative bounded operand is enough to bound the result: reduce the other modulo 2^n
             for (xt, x, xl, xh, yt, y, yl, yh) in ((at, a, al, ah, bt, b, bl, bh), (bt, b, bl, bh, at, a, al, ah)):
